@@ -60,6 +60,18 @@ class RoundTrip(Suite):
         from swcgeom.core import Tree
 
         t = gen.make_tree(case["tree"], comments=list(case["comments"]))
+        if case.get("written_before", case["tree"]["n"] % 2 == 0):
+            # the tree that is written is DERIVED from a tree that was written before (a copy whose columns are then replaced,
+            # as every transform does): the text must be that of the tree being written
+            n0 = case["tree"]["n"]
+            t0 = gen.make_tree(dict(case["tree"], xyz=[[c + 3.25 for c in q] for q in case["tree"]["xyz"]], r=[v + 0.5 for v in case["tree"]["r"]],
+                                    types=[(v + 1) % 8 for v in case["tree"]["types"]]), comments=list(case["comments"]))
+            for off in {case["offset"], 0, 1}:
+                t0.to_swc(id_offset=off); t0.to_swc(source=case["source"], comments=case["with_comments"], id_offset=off)
+            d = t0.copy()
+            for k in ("x", "y", "z", "r", "type", "pid"):
+                d.ndata[k] = t.ndata[k].copy()
+            t = d
         tmp = None
         hist = []
         try:
